@@ -15,7 +15,7 @@ import (
 
 func init() {
 	register(&Prop{ID: "C01", Run: runC01, MinNontrivial: 500,
-		Rule: "cases = attack documents built from a genuine IdP-signed response (Response signed / assertions signed / both, 1-3 assertions, plain or encrypted, any supported algorithm, raw or DEFLATE) and attacker content E (admin subject; unsigned, attacker-signed with own cert, attacker-signed with the trusted cert in KeyInfo, attacker-signed without KeyInfo, encrypted to the SP) with same/fresh/root-colliding IDs, by 30 hand-written transformers (siblings, E wraps S in Advice/Extensions/Object/arbitrary, S wraps E, signature transplant, evil Response wrapping the signed one, stripping, double signatures, duplication, lifting, comment injection, prefix rebinding, DOCTYPE/BOM/declaration, message-type confusion, nested/relocated assertions) plus a tree fuzzer (1-4 random cut/graft/ID/URI edits over the pool of signed elements, evil elements and signatures) and a byte mutator; oracle on acceptance: if Response.SignatureValidated the whole Response equals the trusted-signed Response record, otherwise every returned assertion equals an individually trusted-signed assertion record, and RetrieveAssertionInfo's NameID/Values/SessionIndex come from the same record; rejection is always allowed; non-trivial = the document parsed and reached signature processing; distinct by hash of the serialised document",
+		Rule:        "cases = attack documents built from a genuine IdP-signed response (Response signed / assertions signed / both, 1-3 assertions, plain or encrypted, any supported algorithm, raw or DEFLATE) and attacker content E (admin subject; unsigned, attacker-signed with own cert, attacker-signed with the trusted cert in KeyInfo, attacker-signed without KeyInfo, encrypted to the SP) with same/fresh/root-colliding IDs, by 30 hand-written transformers (siblings, E wraps S in Advice/Extensions/Object/arbitrary, S wraps E, signature transplant, evil Response wrapping the signed one, stripping, double signatures, duplication, lifting, comment injection, prefix rebinding, DOCTYPE/BOM/declaration, message-type confusion, nested/relocated assertions) plus a tree fuzzer (1-4 random cut/graft/ID/URI edits over the pool of signed elements, evil elements and signatures) and a byte mutator; oracle on acceptance: if Response.SignatureValidated the whole Response equals the trusted-signed Response record, otherwise every returned assertion equals an individually trusted-signed assertion record, and RetrieveAssertionInfo's NameID/Values/SessionIndex come from the same record; rejection is always allowed; non-trivial = the document parsed and reached signature processing; distinct by hash of the serialised document",
 		Assumptions: []string{"attack grammar and fuzzers are broad but finite", "the IdP simulator and the verifier share goxmldsig's canonicaliser implementation"}})
 }
 
@@ -647,6 +647,28 @@ func c01Oracle(g *Genuine, resp *types.Response, ai *saml2.AssertionInfo) (strin
 	return "", ""
 }
 
+// c01Placement: under an unverified Response every honoured assertion must have been a direct child of the presented root.
+func c01Placement(presented string, resp *types.Response) (string, string) {
+	if resp.SignatureValidated {
+		return "", ""
+	}
+	d, err := sim.ParseDoc(strings.TrimPrefix(presented, "\xef\xbb\xbf"))
+	if err != nil {
+		return "", ""
+	}
+	direct := map[string]bool{}
+	for _, a := range sim.ChildrenNS(d.Root(), sim.NSA, "Assertion") {
+		direct[a.SelectAttrValue("ID", "")] = true
+	}
+	hasEnc := len(sim.ChildrenNS(d.Root(), sim.NSA, "EncryptedAssertion")) > 0
+	for i := range resp.Assertions {
+		if !direct[resp.Assertions[i].ID] && !hasEnc {
+			return "assertion-not-direct-child-honoured", fmt.Sprintf("assertion %s was honoured although no Assertion with that ID is a direct child of the presented Response", resp.Assertions[i].ID)
+		}
+	}
+	return "", ""
+}
+
 func errStage(err error) string {
 	if err == nil {
 		return "accepted"
@@ -737,6 +759,10 @@ func runC01(c *mon.Ctx) {
 			cs.Violation(key, "%s", msg)
 			return
 		}
+		if key, msg := c01Placement(out, resp); key != "" {
+			cs.Violation(key, "%s", msg)
+			return
+		}
 		c.Count("accepted_with_signed_content_only", 1)
 		cs.Sample(map[string]any{"outcome": stage, "attack": strings.Join(a.notes, ",")})
 	}
@@ -806,4 +832,44 @@ func runC01(c *mon.Ctx) {
 			return sim.DocString(a.doc)
 		})
 	}
+}
+
+// makeAttack draws one SSO presentation for monitors that reuse the attack
+// grammar: a transformer shape, a fuzzed tree or the unmodified genuine document.
+func makeAttack(r *rand.Rand, w *World, k int, opts GenOpts) (*Genuine, string, string, bool) {
+	opts.ForcePlace = []string{"assert", "both", "resp", "assert"}[k%4]
+	g := GenGenuine(r, w, opts)
+	xml, err := sim.BuildResponse(g.Rec, g.Style)
+	if err != nil {
+		return nil, "", "", false
+	}
+	doc, err := sim.ParseDoc(xml)
+	if err != nil {
+		return nil, "", "", false
+	}
+	a := &atk{r: r, w: w, g: g, doc: doc, root: doc.Root(), signer: g.Signer}
+	trs := c01Transformers()
+	var out string
+	pv, _ := mon.Guard(func() {
+		switch (k / 4) % 4 {
+		case 0, 1:
+			t := trs[r.IntN(len(trs))]
+			a.note("%s", t.name)
+			if !t.fn(a) {
+				a.note("n/a->unmodified")
+			}
+			out = sim.DocString(a.doc)
+		case 2:
+			a.note("fuzz")
+			fuzzTree(a)
+			out = sim.DocString(a.doc)
+		case 3:
+			a.note("unmodified")
+			out = xml
+		}
+	})
+	if pv != nil || out == "" {
+		return nil, "", "", false
+	}
+	return g, out, strings.Join(a.notes, ",") + " | base: " + g.Desc, true
 }
